@@ -374,7 +374,8 @@ def inline_value_calls(p: Program, f: Function, depth: int = 2, keep=()) -> Func
             if isinstance(callee, Function) and isinstance(callee.node, ast.FunctionDef) and not callee.is_property and callee is not f:
                 node, hmod, hname = callee.node, callee.module, callee.name
                 skip = 1
-        if node is None or hname in keep:
+        # only private helpers (leading underscore) and local functions are implementation detail; public functions are vocabulary
+        if node is None or hname in keep or not (hname.startswith("_") or hname in nested):
             return None, None
         a = node.args
         if a.vararg or a.kwarg:
